@@ -55,7 +55,8 @@ type histCase struct {
 	Extra   [][]Entry  `json:"extra_initial"` // pre-existing entries that are not slots of any program
 	Tests   []HistTest `json:"tests"`
 	Procs   []Proc     `json:"procs"`
-	Blocked bool       `json:"blocked_dir,omitempty"` // C20: one more config whose directory cannot be created
+	Blocked bool       `json:"blocked_dir,omitempty"` // C20: one more config whose snapshot file can never be written
+	BlockKind string   `json:"block_kind,omitempty"`  // "" : the directory path is occupied by a regular file | file_is_dir : the snapshot file path is a directory
 }
 
 // vkey: identity of the stored text of a call (equal keys <=> the code must treat the values as equal).
@@ -186,6 +187,7 @@ func genHistory(t *rapid.T, col *collector, ho histOpts) histCase {
 	}
 	if ho.blocked && rapid.IntRange(0, 2).Draw(t, "blocked") == 0 {
 		c.Blocked = true
+		c.BlockKind = rapid.SampledFrom([]string{"", "file_is_dir"}).Draw(t, "blockkind")
 	}
 	nprocs := rapid.IntRange(1, ho.maxProcs).Draw(t, "nprocs")
 	for p := 0; p < nprocs; p++ {
@@ -361,8 +363,14 @@ func runHistory(c histCase, hooks histHooks) error {
 		}
 		m.order = append(m.order, append([]Entry{}, es...))
 	}
+	blockedSpec := CfgSpec{Dir: "blocked/sub", Filename: "h"}
 	if c.Blocked {
-		os.WriteFile(filepath.Join(root, "blocked"), []byte("a regular file where a directory is needed"), 0o644)
+		if c.BlockKind == "file_is_dir" {
+			blockedSpec = CfgSpec{Dir: "blockeddir", Filename: "h"}
+			os.MkdirAll(filepath.Join(root, blockedSpec.multiPath(), "inner"), 0o755)
+		} else {
+			os.WriteFile(filepath.Join(root, "blocked"), []byte("a regular file where a directory is needed"), 0o644)
+		}
 	}
 
 	for pi, pr := range c.Procs {
@@ -410,7 +418,8 @@ func runHistory(c histCase, hooks histHooks) error {
 			ci := ec.Call.Cfg
 			if ci >= len(c.Cfgs) {
 				// the blocked config (C20): directory cannot be created, the call must fail and touch nothing
-				spec := CfgSpec{Dir: "blocked/sub", Filename: "h", Update: ec.UpdOpt}
+				spec := blockedSpec
+				spec.Update = ec.UpdOpt
 				r := ec.Call.invoke(spec.build(root), fts[st.Exec])
 				got, err := outcomeOf(r)
 				if err != nil {
